@@ -85,13 +85,17 @@ func goFirstNode(x jp.Expr, data gen.Node, root *Node) (o out) {
 
 // locString normalises a located path (Root/Child/Nth) against the tree: negative indexes become
 // absolute (Nth.Walk reports the index as written). ok=false if the path is not Normal.
-func locString(x jp.Expr, root *Node) (string, bool) {
+func locString(x jp.Expr, root *Node, structs bool) (string, bool) {
 	cur := root
 	var steps []string
 	for _, f := range x {
 		switch t := f.(type) {
 		case jp.Root:
 		case jp.Child:
+			if structs && cur != nil && cur.Kind == 'o' && len(t) > 0 {
+				// a struct member is reported by its field name (Get finds it case-insensitively)
+				t = jp.Child(strings.ToLower(string(t[:1])) + string(t[1:]))
+			}
 			steps = append(steps, "k"+lib.HexF([]byte(t)))
 			var next *Node
 			if cur != nil && cur.Kind == 'o' {
@@ -125,13 +129,17 @@ func locString(x jp.Expr, root *Node) (string, bool) {
 
 // located renders one reported location: the path, and the value the property's own oracle gives for
 // it — Get of that path on the simple data must be exactly one element.
-func located(o *out, loc jp.Expr, root *Node, simple any, reported *string) {
-	ps, ok := locString(loc, root)
+func located(o *out, loc jp.Expr, root *Node, simple any, structs bool, reported *string) {
+	ps, ok := locString(loc, root, structs)
 	if !ok || !loc.Normal() {
 		o.bad = "reported path is not normalized: " + loc.String()
 		return
 	}
 	got := goGet(loc, simple)
+	if len(loc) == 0 {
+		// the empty path is the data itself (Get of an empty expression returns nothing by definition)
+		got = out{vals: []string{root.canon()}}
+	}
 	val := "n"
 	switch {
 	case got.panic != "":
@@ -147,19 +155,21 @@ func located(o *out, loc jp.Expr, root *Node, simple any, reported *string) {
 	o.vals = append(o.vals, ps+"="+val)
 }
 
-func goLocate(x jp.Expr, data any, root *Node, simple any) (o out) {
+// The location oracle runs Get of the reported path on the data the evaluator was given (a struct member
+// is reported by its field name, which only that representation resolves).
+func goLocate(x jp.Expr, data any, root *Node, structs bool) (o out) {
 	defer guard(&o)
 	for _, loc := range x.Locate(data, 0) {
-		located(&o, loc, root, simple, nil)
+		located(&o, loc, root, data, structs, nil)
 	}
 	return
 }
 
-func goWalk(x jp.Expr, data any, root *Node, simple any) (o out) {
+func goWalk(x jp.Expr, data any, root *Node, structs bool) (o out) {
 	defer guard(&o)
 	x.Walk(data, func(path jp.Expr, nodes []any) {
 		rep := canonOf(nodes[len(nodes)-1])
-		located(&o, append(jp.Expr{}, path...), root, simple, &rep)
+		located(&o, append(jp.Expr{}, path...), root, data, structs, &rep)
 	})
 	return
 }
